@@ -207,7 +207,7 @@ def run(chk):
     for _ in range(n_rand):
         r = rng.random()
         kinds = KINDS if r < 0.9 else KINDS + ['odd']
-        a = cm.gen_annotation(rng, residues=cm.RES24 if r < 0.95 else cm.RES24 + 'BZ', kinds=kinds, isotope_p=0.3, charge_p=0.35)
+        a = cm.gen_annotation(rng, residues=cm.RES24 if r < 0.95 else cm.RES24 + rng.choice(['BZ', 'b1', 'Z']), kinds=kinds, isotope_p=0.3, charge_p=0.35)
         cases.append((a, gen_kw(rng)))
     from peptacular.proforma.proforma_parser import ProFormaAnnotation
     from peptacular.proforma.proforma_dataclasses import Mod
@@ -259,6 +259,97 @@ def run(chk):
             if len([d for d in chk.disagreements if d['op'] == 'comp_mass_concrete_rule_parser']) < 5:
                 chk.disagreements.append({'op': 'comp_mass_concrete_rule_parser', 'line': annot.dump(a), 'impl': repr(r), 'model': m,
                                           'case': c02h.obj_of(a, kw)})
+
+    # _sequence_comp called directly (its own global-rule block is dead code behind comp_mass, which condenses first),
+    # also on text input; condense_static_mods(inplace=False); comp_mass / comp on text input
+    scs = [c for c in cases if c[0]._static_mods is not None][:250] + cases[:250]
+    outs = chk.driver(DRV, [cm.line('sequence_comp', a, {k: v for k, v in kw.items() if k in ('ion_type', 'isotope', 'use_isotope_on_mods')})
+                            for a, kw in scs])
+    st = chk.corr.setdefault('sequence_comp', {'evaluations': 0, 'disagreements': 0, 'samples': []})
+    for i, ((a, kw), m) in enumerate(zip(scs, outs)):
+        arg = a.copy()
+        if i % 7 == 0:
+            try:
+                txt = a.serialize()
+                if type(pt.parse(txt)).__name__ == 'ProFormaAnnotation' and annot.dump(pt.parse(txt)) == annot.dump(a):
+                    arg = txt
+            except Exception:  # noqa
+                pass
+        try:
+            r = chem_calc._sequence_comp(arg, kw.get('ion_type', 'p'), kw.get('isotope', 0), kw.get('use_isotope_on_mods', False))
+        except Exception as e:  # noqa
+            r = 'ERR:' + type(e).__name__
+        st['evaluations'] += 1
+        chk.evaluations += 1
+        if not cmp_comp(r, m):
+            st['disagreements'] += 1
+            if len([d for d in chk.disagreements if d['op'] == 'sequence_comp']) < 5:
+                chk.disagreements.append({'op': 'sequence_comp', 'line': annot.dump(a), 'impl': repr(r), 'model': m, 'case': c02h.obj_of(a, kw)})
+    cds = [c[0] for c in cases if c[0]._static_mods is not None][:200] + [c[0] for c in cases if c[0]._static_mods is None][:20]
+    outs = chk.driver(DRV, ['condense\t' + annot.dump(a) + '\t' + '\t'.join(cm.env_strings(a)) for a in cds])
+    st = chk.corr.setdefault('condense_static_mods', {'evaluations': 0, 'disagreements': 0, 'samples': []})
+    for a, m in zip(cds, outs):
+        try:
+            im = 'ok ' + annot.dump(a.copy().condense_static_mods(inplace=False))
+        except Exception as e:  # noqa
+            im = 'ERR:' + type(e).__name__
+        st['evaluations'] += 1
+        chk.evaluations += 1
+        mm = 'ok ' + annot.canon_dump(m[3:]) if m.startswith('ok ') else m
+        if im != mm:
+            st['disagreements'] += 1
+            if len([d for d in chk.disagreements if d['op'] == 'condense_static_mods']) < 5:
+                chk.disagreements.append({'op': 'condense_static_mods', 'line': annot.dump(a), 'impl': im, 'model': mm})
+    tcs = []
+    for a, kw in cases[:: max(1, len(cases) // 150)]:
+        try:
+            txt = a.serialize()
+            a2 = pt.parse(txt)
+        except Exception:  # noqa
+            continue
+        if type(a2).__name__ == 'ProFormaAnnotation':
+            tcs.append((txt, a2, kw))
+    outs = chk.driver(DRV, [cm.line('comp_mass', a2, kw) for _, a2, kw in tcs])
+    st = chk.corr.setdefault('comp_mass_from_string', {'evaluations': 0, 'disagreements': 0, 'samples': []})
+    for (txt, a2, kw), m in zip(tcs, outs):
+        try:
+            r = pt.comp_mass(txt, **kw)
+        except Exception as e:  # noqa
+            r = 'ERR:' + type(e).__name__
+        try:
+            pt.comp(txt, estimate_delta=True, **kw)
+        except Exception:  # noqa
+            pass
+        st['evaluations'] += 1
+        chk.evaluations += 1
+        if not cmp_comp_mass(r, m):
+            st['disagreements'] += 1
+            chk.disagreements.append({'op': 'comp_mass_from_string', 'line': txt, 'impl': repr(r), 'model': m})
+    # non-string adduct / isotope values, formula-text composition, no labels
+    misc = [('adduct_comp_v', 5), ('adduct_comp_v', 2.5), ('adduct_comp_v', '+Na+')]
+
+    def misc_impl(c):
+        try:
+            return 'ok ' + json.dumps(chem_calc._parse_charge_adducts_comp(c[1]))
+        except Exception as e:  # noqa
+            return 'ERR:' + type(e).__name__
+
+    chk.correspond('adduct_comp_value', DRV, misc, lambda c: f'adduct_comp_v\t{annot.show_val(c[1])}', misc_impl, compare=ac_cmp)
+    iso2 = [({'C': 6, 'H': 12}, None), ({'C': 2}, [13]), ({'C': 2}, ['13X']), ({'C': 2, 'N': 1}, ['15N', 'Qq']), ({'C': 2, 'D': 1}, ['D', 2.5]), ('C6H12O6', ['13C']), ('C2[13C2]H', ['13C', 'D'])]
+
+    def iso2_impl(c):
+        try:
+            return 'ok ' + json.dumps(chem_calc.apply_isotope_mods_to_composition(c[0] if isinstance(c[0], str) else dict(c[0]),
+                                                                                  None if c[1] is None else list(c[1])))
+        except Exception as e:  # noqa
+            return 'ERR:' + type(e).__name__
+
+    def iso2_line(c):
+        comp = c[0] if isinstance(c[0], dict) else chem_calc.parse_chem_formula(c[0])
+        return f'apply_isotope\t{cm.show_comp(comp)}\t' + ('N' if c[1] is None else 'L' + ';'.join(annot.show_val(x) + '^1' for x in c[1]))
+
+    chk.correspond('apply_isotope_edge', DRV, iso2, iso2_line, iso2_impl,
+                   compare=lambda im, m: ac_cmp(im, m) if im.startswith('ok') else im == m)
 
     sel = cases[::2]
     lines = [cm.line('comp', a, kw, prefix=(str(int(i % 3 != 0)),)) for i, (a, kw) in enumerate(sel)]
